@@ -178,6 +178,9 @@ func checkC01(c *Ctx) {
 	checkC01LimitParity(c)
 	checkC01StrayAfterLoop(c)
 	checkC01LimitLandsOn(c)
+	checkC01AssignPaths(c)
+	checkC01ReceiverReassigned(c)
+	checkC01LexTerminates(c)
 
 	c.Set("exhaustive", true)
 	c.Set("bounds", map[string]any{"MaxDepth": maxDepth})
